@@ -13,6 +13,14 @@ fn trace_line(kind: &str, n: u64, threads: usize, k: usize) {
 
 fn quick(x: u64) -> u64 { x * 10 }
 
+// the mapped function panics on item BOOM (a shard that cannot be read)
+static BOOM: std::sync::atomic::AtomicU64 = std::sync::atomic::AtomicU64::new(u64::MAX);
+fn boom(x: u64) -> u64 {
+    if x == BOOM.load(std::sync::atomic::Ordering::SeqCst) { panic!("unreadable item {}", x); }
+    std::thread::sleep(std::time::Duration::from_millis((x % 3) * 2));
+    x * 10
+}
+
 // how many items parallel_map has pulled from its input iterator (read-ahead is bounded by consumed + threads, also at drop)
 static PULLED: std::sync::atomic::AtomicUsize = std::sync::atomic::AtomicUsize::new(0);
 
@@ -79,6 +87,26 @@ fn pmap_cases() {
         trace_line("full", n, t, 0);
         println!("PMAP {{\"kind\":\"full\",\"n\":{},\"threads\":{},\"out\":{:?}}}", n, t, out);
     }
+    // a mapped function that panics on one item: every position x thread count; the pass must not end normally short
+    for n in [1u64, 4, 7] {
+        for t in [1usize, 2, 3, 8] {
+            let mut js = vec![0u64, n / 2, n - 1];
+            if n as usize > t { js.push(n - t as u64); }
+            js.sort(); js.dedup();
+            for j in js {
+                BOOM.store(j, std::sync::atomic::Ordering::SeqCst);
+                let _ = verif::take();
+                let got = std::sync::Mutex::new(Vec::new());
+                let res = std::panic::catch_unwind(std::panic::AssertUnwindSafe(|| {
+                    for v in parallel_map(boom, 0..n, t) { got.lock().unwrap().push(v); }
+                }));
+                let tr: Vec<String> = verif::take().iter().map(|(c, w)| format!("{}{}", c, w)).collect();
+                let out = got.lock().unwrap().clone();
+                println!("PMAPFAULT {{\"n\":{},\"threads\":{},\"j\":{},\"raised\":{},\"out\":{:?},\"trace\":\"{}\"}}", n, t, j, res.is_err(), out, tr.join(" "));
+            }
+        }
+    }
+    BOOM.store(u64::MAX, std::sync::atomic::Ordering::SeqCst);
     // one long pause of the consumer (an evaluation / checkpoint between two training steps): PMAP_LONG_STALL_MS
     {
         let ms: u64 = std::env::var("PMAP_LONG_STALL_MS").ok().and_then(|v| v.parse().ok()).unwrap_or(10500);
